@@ -149,11 +149,12 @@ class AnalyzerHistory(TracedMachine):
 
     @initialize(seed=st.integers(0, 10 ** 6), mode=st.sampled_from(["auto", "csd"]), order=st.sampled_from([-1, 0, 1, 2]),
                 sched=st.sampled_from(["ltf", "vectorized_ltf", "new_ltf", "lpsd"]), band=st.booleans(),
-                backend=st.sampled_from(["numba", "numpy"]), offset=st.sampled_from([0.0, 5.0]))
-    def init(self, seed, mode, order, sched, band, backend, offset):
-        self.step("init", seed=seed, mode=mode, order=order, sched=sched, band=band, backend=backend, offset=offset)
+                backend=st.sampled_from(["numba", "numpy"]), offset=st.sampled_from([0.0, 5.0]),
+                force=st.sampled_from([0, 0, 0, 120, 250]))
+    def init(self, seed, mode, order, sched, band, backend, offset, force):
+        self.step("init", seed=seed, mode=mode, order=order, sched=sched, band=band, backend=backend, offset=offset, force=force)
 
-    def do_init(self, seed, mode, order, sched, band, backend="numba", offset=0.0):
+    def do_init(self, seed, mode, order, sched, band, backend="numba", offset=0.0, force=0):
         import numba
         from speckit import SpectrumAnalyzer
         self._t0 = numba.get_num_threads()
@@ -168,6 +169,17 @@ class AnalyzerHistory(TracedMachine):
         if band:
             self.kw["band"] = (0.02, 0.3)
         self.fs = 1.0
+        self.force = 0
+        if force and sched == "vectorized_ltf":
+            force = 0        # its Jdes search allocates 10*Jdes-point grids for Jdes up to 1e6 (about 1 s per scheduler call)
+        if force:
+            # forced bin count: the target is the count the scheduler gives for Jdes=force (reachable by construction);
+            # the analyzer then has to find a Jdes itself, once, and keep the resulting plan
+            from .. import sched as _sched
+            probe = _sched.sched_func(sched)(N=N, fs=1.0, olap=0.75, bmin=1.0, Lmin=1, Jdes=int(force), Kdes=10)
+            self.kw.update(Jdes=int(probe["nf"]), force_target_nf=True)
+            self.kw.pop("band", None)
+            self.force = int(force)
         self.an = SpectrumAnalyzer(self.data, self.fs, **self.kw)
         self.mode = mode
 
@@ -175,11 +187,26 @@ class AnalyzerHistory(TracedMachine):
         from speckit import SpectrumAnalyzer
         return SpectrumAnalyzer(self.data0.copy(), self.fs, **self.kw)
 
+    def fresh_result(self, key):
+        """The same request on a fresh analyzer over a pristine copy of the record, computed once per request kind;
+        every call returns a new SpectrumResult wrapped around those raw statistics (nothing read from it yet)."""
+        from speckit import SpectrumResult
+        if not hasattr(self, "_fresh"):
+            self._fresh = {}
+        if key not in self._fresh:
+            an = self.fresh()
+            ref = an.compute() if key == "full" else an.compute_single_bin(REQS[key[1]][0] * self.fs, L=REQS[key[1]][1])
+            names = ["f", "r", "b", "L", "K", "navg", "D", "O", "XX", "YY", "XY", "S12", "S2", "M2", "compute_t"]
+            raw = {k: copy.deepcopy(getattr(ref, k)) for k in names}
+            raw["D"] = [np.asarray(d) for d in raw["D"]]
+            self._fresh[key] = (raw, ref.iscsd, ref.fs)
+        raw, iscsd, fs = self._fresh[key]
+        return SpectrumResult({k: copy.deepcopy(v) for k, v in raw.items()}, {"order": self.kw["order"]}, iscsd, fs)
+
     def _store(self, res, key):
         snap = {k: np.array(getattr(res, k), copy=True) for k in RAWF + ("f", "L", "navg")}
         # the same request on a fresh analyzer over a pristine copy of the record (no history at all)
-        an = self.fresh()
-        ref = an.compute() if key == "full" else an.compute_single_bin(REQS[key[1]][0] * self.fs, L=REQS[key[1]][1])
+        ref = self.fresh_result(key)
         v = []
         raw_equal(res, ref, "vs_fresh_analyzer:" + str(key), v)
         self.viol.extend(v)
@@ -252,8 +279,7 @@ class AnalyzerHistory(TracedMachine):
         res, _, key = self.results[i % len(self.results)]
         val = getattr(res, name)
         # canonical: the same request on a fresh analyzer, attribute read first
-        an = self.fresh()
-        ref = an.compute() if key == "full" else an.compute_single_bin(REQS[key[1]][0] * self.fs, L=REQS[key[1]][1])
+        ref = self.fresh_result(key)
         if not same(val, getattr(ref, name), 1e-12):
             self.flag("attribute_depends_on_history", q=name, key=str(key))
 
@@ -285,7 +311,7 @@ class AnalyzerHistory(TracedMachine):
     def summary(self):
         nt = self.did_full and self.did_single and self.changes >= 1
         return nt, ["machine:full+single" if self.did_full and self.did_single else "machine:partial",
-                    "machine:backend=" + str(getattr(self, "backend", None))]
+                    "machine:backend=" + str(getattr(self, "backend", None))] + (["machine:force_target_nf"] if getattr(self, "force", 0) else [])
 
 
 PARTS = [
